@@ -82,7 +82,50 @@ func quantizeCase(t *mon.T, which string, c dec.Ctx, x dec.D, e int64) {
 	if e < 0 {
 		y = dec.D{Form: dec.Finite, Neg: true, C: big.NewInt(-e), E: 0}
 	}
-	judge(t, which, "quantize", c, x, y, m, o)
+	if judge(t, which, "quantize", c, x, y, m, o) {
+		trapEcho(t, "quantize", c, x, e, o)
+	}
+}
+
+// trapEcho repeats a call that was judged correct under a random non-empty
+// trap set: what is reported (result, flags) must be the same, and these
+// single-rounding operations return an error exactly when a reported
+// condition is trapped - in particular RoundToIntegralValue, which reports no
+// Inexact/Rounded, must not fail because of them.
+func trapEcho(t *mon.T, op string, c dec.Ctx, x dec.D, e int64, o Outcome) {
+	if !t.Rng.Chance(1, 3) {
+		return
+	}
+	traps := apd.Condition(t.Rng.U64()) & br.AllFlags
+	if t.Rng.Bool() {
+		traps = []apd.Condition{apd.Inexact, apd.Rounded, apd.Inexact | apd.Rounded, apd.InvalidOperation, apd.Subnormal | apd.Underflow, apd.Clamped}[t.Rng.Intn(6)]
+	}
+	if traps == 0 {
+		return
+	}
+	var o2 Outcome
+	if op == "quantize" {
+		o2 = CallQuantize(br.Context(c, traps), x, e)
+	} else {
+		o2 = CallArith(op, br.Context(c, traps), x, dec.D{})
+	}
+	t.Eval()
+	t.Count("trap-echo/" + op)
+	why := ""
+	switch {
+	case o2.Flags != o.Flags:
+		why = fmt.Sprintf("Condition differs under traps: %s vs %s", br.FlagNames(o2.Flags), br.FlagNames(o.Flags))
+	case meaningful(o2.Res) != meaningful(o.Res):
+		why = fmt.Sprintf("result differs under traps: %s vs %s", meaningful(o2.Res), meaningful(o.Res))
+	case (o2.Err != nil) != (o.Flags&traps != 0):
+		why = fmt.Sprintf("error %v although reported flags [%s] & traps [%s] say otherwise", o2.Err, br.FlagNames(o.Flags), br.FlagNames(traps))
+	}
+	if why != "" {
+		d := detail(op, c, x, dec.D{}, o2, why)
+		d["traps"] = br.FlagNames(traps)
+		d["aux"] = e
+		t.Fail("report-differs-under-traps", d)
+	}
 }
 
 func rtiCase(t *mon.T, which string, op string, c dec.Ctx, x dec.D) {
@@ -98,7 +141,9 @@ func rtiCase(t *mon.T, which string, op string, c dec.Ctx, x dec.D) {
 		m = ModelCeilFloor(c, x, false)
 	}
 	o := CallArith(op, br.Context(c, 0), x, dec.D{})
-	judge(t, which, op, c, x, dec.D{}, m, o)
+	if judge(t, which, op, c, x, dec.D{}, m, o) {
+		trapEcho(t, op, c, x, 0, o)
+	}
 }
 
 // integralOperand draws x around the integer boundary (exponent 0).
